@@ -158,6 +158,16 @@ func pts(c *mon.Ctx, v uint64, r *gen.Rand, class string) {
 				c.Fail("pts:marker-bit-influences-decode", fmt.Sprintf("flipping non-value bit %d changes the decoded time from %d to %d / %d", bit, v, a, b), wit{"ExtractTime", v, "", mon.Hex(f), "", ""})
 			}
 		}
+		// all non-value bits set, and all of them clear (for the largest value the first is FF FF FF FF FF)
+		for _, fill := range []byte{0xff, 0x00} {
+			f := append([]byte{}, buf[5:10]...)
+			for i := range f {
+				f[i] = f[i]&ref.PTSValueMask[i] | fill&^ref.PTSValueMask[i]
+			}
+			if a, b := gots.ExtractTime(f), pes.ExtractTime(f); a != v || b != v {
+				c.Fail("pts:marker-bit-influences-decode", fmt.Sprintf("with every non-value bit set to %d the bytes %x decode to %d / %d instead of %d", fill&1, f, a, b, v), wit{"ExtractTime", v, "", mon.Hex(f), "", ""})
+			}
+		}
 	}
 	c.Class("pts/" + class)
 }
@@ -186,8 +196,14 @@ func endToEnd(c *mon.Ctx, r *gen.Rand) {
 	if r.Chance(4) {
 		withP, withO = false, true // an OPCR without a PCR is legal and moves the field
 	}
+	if r.Chance(4) {
+		// original clock references at the top of their range (first byte 0xFF, 0xFE)
+		o = r.PickU64([]uint64{ref.PCRMax - 1, ref.PCRMax - 300, 0xff << 25 * 300, 0xff<<25*300 + 17, 0xfe << 25 * 300, 0x7f<<26*300 + 299})
+	}
+	// the PCR may be added after the OPCR has been written (the setters come in any order)
+	latePCR := withP && withO && r.Chance(3)
 	var e1, e2 error
-	if withP {
+	if withP && !latePCR {
 		e1 = af.SetHasPCR(true)
 	}
 	if withO {
@@ -202,7 +218,7 @@ func endToEnd(c *mon.Ctx, r *gen.Rand) {
 		c.Fail("e2e:af-setup", fmt.Sprintf("SetHasPCR/SetHasOPCR on an empty 182-byte adaptation field failed: %v %v", e1, e2), nil)
 		return
 	}
-	if withP {
+	if withP && !latePCR {
 		if err := af.SetPCR(v); err != nil {
 			c.Fail("e2e:setpcr", "SetPCR failed: "+err.Error(), wit{Op: "SetPCR", Value: v})
 		}
@@ -210,6 +226,16 @@ func endToEnd(c *mon.Ctx, r *gen.Rand) {
 	if withO {
 		if err := af.SetOPCR(o); err != nil {
 			c.Fail("e2e:setopcr", "SetOPCR failed: "+err.Error(), wit{Op: "SetOPCR", Value: o})
+		}
+	}
+	if latePCR {
+		c.Count("e2e.pcr_added_after_the_opcr_was_written")
+		if err := af.SetHasPCR(true); err != nil {
+			c.Fail("e2e:af-setup", "SetHasPCR(true) after the OPCR was written failed: "+err.Error(), nil)
+			return
+		}
+		if err := af.SetPCR(v); err != nil {
+			c.Fail("e2e:setpcr", "SetPCR failed: "+err.Error(), wit{Op: "SetPCR", Value: v})
 		}
 	}
 	if hasSplice && r.Bool() {
